@@ -272,14 +272,18 @@ impl Property for C13 {
                 vec(text, 1..=4),
             )
         })
-        .prop_flat_map(|t| (Just(t), prop::option::weighted(0.06, (64usize..70, 64usize..72, 0u8..2, any::<bool>()))))
+        .prop_flat_map(|t| (Just(t), prop::option::weighted(0.1, (60usize..70, 60usize..72, 0u8..2, any::<bool>(), 0usize..5, 0usize..4))))
         .prop_map(|((char_classes, cat_lines, unk_lines, mut providers, words, n, mut texts), long)| {
-            if let Some((maxlen, reps, ch, mecab_first)) = long {
+            if let Some((maxlen, reps, ch, mecab_first, pre, tail_run)) = long {
                 // scenario for words of 64+ characters (the "maybe created" branch of the length bitmap)
                 let re = Prov::Regex { regex: "[ab]+".to_string(), strict: Some(false), max_length: Some(maxlen), left: 0, right: 0, cost: 10 };
                 providers = if mecab_first { vec![Prov::Mecab, re] } else { vec![re.clone(), Prov::Mecab, re] };
-                let mut t = vec![ch; reps];
-                t.extend(texts[0].iter().take(3));
+                // the long run starts after 0-4 other characters (so that earlier positions have
+                // created nodes too) and may be followed by a run of another character
+                let mut t: Vec<u8> = texts[0].iter().take(pre).cloned().collect();
+                t.extend(vec![ch; reps]);
+                t.extend(vec![1 - ch; tail_run * 2]);
+                t.extend(texts[0].iter().skip(pre).take(3));
                 texts[0] = t;
             }
             // one definition per class name (the loader refuses duplicates), unk lines only for defined classes
